@@ -22,7 +22,7 @@ for p in selftest/benign/*.patch; do [ -e "$p" ] && list+=("benign $p"); done
 worker() { # index
   local k=$1 S="$T/wt.$1" R="$T/root.$1" i=0 item kind p base id expect out rc
   git -C /repo worktree add -q --detach "$S" HEAD || { echo "SELFTEST-BROKEN worker $k: no worktree"; return; }
-  mkdir -p "$R"; cp -r props claims known_findings.json "$R/"; ln -s "$(pwd)/replay" "$R/replay"
+  mkdir -p "$R"; cp -r props claims known_findings.json "$R/"; ln -s "$(pwd)/replay" "$R/replay"; ln -s "$(pwd)/bounded" "$R/bounded"
   for item in "${list[@]}"; do
     kind=${item%% *}; p=${item#* }
     base=$(basename "$p"); id=${base%%-*}
